@@ -348,6 +348,11 @@ def bounded_documents(ctx, b):
                 ps.append(f'<p begin="{d1}s" dur="{d2}s">t{i}</p>')
                 exp.append((v1, v1 + v2))
         doc = tmpl % "".join(ps)
+        if rep % 4 == 3:
+            # a second language without any non-empty cue (before or after the first): the cues of the populated
+            # language are returned all the same
+            other = '<div xml:lang="fr"><p begin="1s" end="2s"> </p></div>'
+            doc = doc.replace("<body>", "<body>" + other) if rep % 8 == 3 else doc.replace("</body>", other + "</body>")
         caps = reader(DFXPReader).read(doc).get_captions("en")
         got = [(c_.start, c_.end) for c_ in caps]
         b.case(("dfxp", doc), got == exp and all(type(x) is int for p in got for x in p),
@@ -362,6 +367,7 @@ def bounded_documents(ctx, b):
         k = rng.choice([1, 2, 4])
         starts = sorted(rng.sample(range(0, 10 ** 7), k))
         own_syncs = rng.random() < 0.5
+        blank_only = own_syncs and rng.random() < 0.25
         ends = []
         body = ""
         other = []
@@ -373,10 +379,16 @@ def bounded_documents(ctx, b):
             nxt = starts[i + 1] if i + 1 < len(starts) else s + 9000
             if own_syncs and nxt - s > 2 and rng.random() < 0.7:
                 o = rng.randrange(s + 1, nxt)
-                other.append(o)
-                body += f'<SYNC start="{o}"><P class="FRCC">fr {i}</P></SYNC>'
+                if blank_only:
+                    # the second language is used for blank paragraphs only: it has no cue
+                    body += f'<SYNC start="{o}"><P class="FRCC">&nbsp;</P></SYNC>'
+                else:
+                    other.append(o)
+                    body += f'<SYNC start="{o}"><P class="FRCC">fr {i}</P></SYNC>'
             if i + 1 < len(starts) and rng.random() < 0.5:
                 blank = rng.randrange((other[-1] if other and other[-1] > s else s) + 1, starts[i + 1] + 1)
+                if blank_only:
+                    blank = starts[i + 1]             # (keep clear of the other language's blank syncs)
                 if blank < starts[i + 1]:
                     body += f'<SYNC start="{blank}"><P class="ENCC">&nbsp;</P></SYNC>'
                     ends.append(blank)
@@ -411,8 +423,29 @@ def bounded_documents(ctx, b):
                {"expected": exp, "got": got}, sample={"format": "microdvd", "doc": doc})
 
 
+from pycaption.base import CaptionSet
+
+
+def set_is_empty(c):
+    """CaptionSet.is_empty (the readers raise the no-captions error on it): true exactly when NO language has a
+    caption - one populated language is enough for the set to be returned, wherever it stands among empty ones"""
+    import z3
+    from pyvc import heap
+    from pyvc.heap import SymList, SEQ
+    from pycaption.base import CaptionSet
+    heap.install(c.interp)
+    k = c.pick("languages", [0, 1, 2, 3])
+    lists = [SymList(z3.Const(f"captions_{i}", SEQ), None) for i in range(k)]
+    cs = c.new(CaptionSet, _captions={f"l{i}": lists[i] for i in range(k)}, _styles={}, layout_info=None)
+    r = c.call(CaptionSet.is_empty, cs, compare=False)
+    import pyvc.sym as sym
+    some = z3.Or(*[z3.Length(l.t) > 0 for l in lists]) if lists else z3.BoolVal(False)
+    c.ensure("empty_iff_no_language_has_a_caption", sym.zbool(r) == z3.Not(some))
+
+
 def run(ctx):
     P = ctx.prove
+    P("base.CaptionSet.is_empty", set_is_empty, functions=[CaptionSet.is_empty], crosscheck=False)
     P("srt._srttomicro", srt_stamp, functions=[SRTReader._srttomicro])
     P("webvtt.microseconds", webvtt_microseconds, functions=[webvtt_mod.microseconds])
     P("webvtt._parse_timestamp", webvtt_stamp, functions=[WebVTTReader._parse_timestamp])
